@@ -87,6 +87,7 @@ J06(t, k) ==
                   THEN "class-members-have-different-normal-forms"
              ELSE "ok"
      ELSE IF c.exc = "NotImplementedError" THEN "ok"
+     ELSE IF c.exc = "Timeout" THEN "non-termination-not-reported-as-NotImplementedError"
      ELSE IF c.exc # "" THEN "unexpected-exception"
      ELSE IF SmallEnough(pre) /\ AsDiag(c.res) \notin Class(pre) THEN "not-reachable-by-interchanges"
      ELSE "ok"
